@@ -13,6 +13,7 @@ import Driver.Batch
 import Driver.C10
 import Driver.C08
 import Driver.C09
+import Driver.C07
 open Driver
 
 def machines : List (String × Machine × Machine) :=
@@ -31,7 +32,8 @@ def machines : List (String × Machine × Machine) :=
    ("C05", Batch.machine, Batch.judge05),
    ("C10", C10.machine, C10.judge),
    ("C08", C08.machine, C08.judge),
-   ("C09", C09.machine, C09.judge)]
+   ("C09", C09.machine, C09.judge),
+   ("C07", C07.machine, C07.judge)]
 
 def main (args : List String) : IO UInt32 := do
   match args with
